@@ -94,6 +94,25 @@ def needed_opts(S, t, D, key, b, v):
     return out
 
 
+def group_count(b, counts, o):
+    """calls of the option and of its duplicates (same arguments, same assignments)"""
+    return sum(counts.get(x["name"], 0) for x in b["opts"] if x["args"] == o["args"] and x["asgs"] == o["asgs"])
+
+
+def has_unset_ctor(S, B, key, t, v):
+    """does the value leave a member unset that a constructor (of its builder or of a nested one) takes as argument?"""
+    key, t = bc.as_struct(S, key, t)
+    if t["k"] in ("arr", "map"):
+        xs = v if isinstance(v, list) else list(v.values()) if isinstance(v, dict) else []
+        return any(has_unset_ctor(S, B, key, t["t"], x) for x in xs)
+    if t["k"] != "struct" or not isinstance(v, dict):
+        return False
+    b = B.get(key)
+    if b and any(bc.canon(at_path(v, a["path"])) is None for a in b["ctor"]["asgs"]):
+        return True
+    return any(has_unset_ctor(S, B, key + "." + f["n"], f["t"], v[f["n"]]) for f in t["fields"] if f["n"] in v and v[f["n"]] is not None)
+
+
 def value_feature(x):
     if x is bc.ABSENT or x is None:
         return "absent"
@@ -137,6 +156,10 @@ def leaf_class(S, t, v, r, n):
     what = "dropped" if bc.canon(y) is None else ("added" if bc.canon(x) is None else "changed")
     return "%s:%s:%s@%s" % (arg_kind(S, ft), what, value_feature(x),
                             ("field" if f["req"] else "optional-field") + ("+default" if f["def"]["j"] != "none" else ""))
+
+
+def what_added(cls):
+    return ":added:absent@" in cls
 
 
 def diag_class(msg):
@@ -396,8 +419,19 @@ def run(ctx):
     texts = {}
     with open(inp, "w") as f:
         for cid, r in res1.items():
-            if r.get("glue_err") or r.get("panic"):
-                raise core.Inconclusive("converter driver problem on %s: %s" % (cid, r.get("glue_err") or r.get("panic")))
+            if r.get("glue_err"):
+                raise core.Inconclusive("converter driver problem on %s: %s" % (cid, r["glue_err"]))
+            if r.get("panic"):
+                # the generated converter itself crashes on this value: no text at all
+                u_, v_ = index[cid]
+                e_ = batch.cat[u_["id"]]
+                cls = "unset-constructor-argument" if has_unset_ctor(e_["S"], e_["B"], v_["key"], e_["S"][v_["key"]], v_["py"]) else "other"
+                ctx.fail("C14/go/compiles/converter-panics:%s" % cls,
+                         "the generated %s converter panics on %s: %s" % (v_["key"], sc.dumps(v_["py"]), r["panic"]),
+                         {"entry_id": u_["id"], "entry": e_["name"], "format": u_["fmt"], "schema": e_["schema"], "schema_text": u_["text"],
+                          "veneers": u_.get("veneers"), "key": v_["key"], "value": v_["py"], "panic": r["panic"]})
+                skipped["converter-panicked"] += 1
+                continue
             if r.get("err"):
                 skipped["value-not-decodable-into-the-go-type"] += 1
                 continue
@@ -487,6 +521,8 @@ def run(ctx):
         elif "Rebuild" in violated:
             n = diff[0]
             cls = leaf_class(S, t, vgo, rebuilt, n)
+            if what_added(cls) and has_unset_ctor(S, entry["B"], key, t, vgo):
+                cls += "/unset-constructor-argument"     # a constructor always sets what it takes: an unset optional member cannot be kept unset
             owners = [o for o in entry["B"][key]["opts"] if any(a["path"][0] == n for a in o["asgs"])]
             if owners and all(len(o["asgs"]) > 1 for o in owners):
                 cls += "/via-multi-argument-option"
@@ -524,7 +560,7 @@ def run(ctx):
             nviol = set()
             notonce = []
             for o in needed_opts(S, nt, Dn, nkey, b, nv):
-                if counts.get(o["name"], 0) != want(S, nkey, nt, o, nv):
+                if group_count(b, counts, o) != want(S, nkey, nt, o, nv):
                     notonce.append(o)
             ctor_bad = counts["#ctor"] != len(b["ctor"]["args"])
             if notonce or ctor_bad:
@@ -546,7 +582,7 @@ def run(ctx):
             for o in notonce:
                 a = o["asgs"][0]
                 _, ft = bc.type_at(S, nkey, nt, a["path"])
-                c, wnt = counts.get(o["name"], 0), want(S, nkey, nt, o, nv)
+                c, wnt = group_count(b, counts, o), want(S, nkey, nt, o, nv)
                 rel = "missing" if c < wnt else "repeated"
                 cls = "%s:%s@%s/%s:%s" % (rel, a["m"], "field" if len(a["path"]) == 1 else "nested-path", arg_kind(S, ft),
                                           value_feature(at_path(nv, a["path"])))
